@@ -13,7 +13,7 @@ for k in ids:
     c=e.get('coverage',{}).get('checked_profile_pass',{})
     if isinstance(c,dict) and c.get('wall_s'): w+=c['wall_s']
     walls.append(w)
-thor={"C01":846,"C02":757,"C03":1762,"C04":834,"C05":314,"C06":1417,"C07":509,"C08":131,"C09":2886,"C10":278,"C11":277,"C12":612,"C13":648,"C14":317,"C15":3}
+thor={"C01":1204,"C02":615,"C03":1762,"C04":834,"C05":194,"C06":1417,"C07":426,"C08":332,"C09":2886,"C10":443,"C11":300,"C12":612,"C13":648,"C14":502,"C15":3}
 txt=("Measured on this machine (16 cores), quick tier through `scripts/check.sh`\n"
 "on the unchanged (repaired) tree, harness already built (`setup_cmd`: cold build\n"
 "of both profiles ≈ 4 min, `selftest --fast` 6 s); a rebuild after an edit in /repo\n"
